@@ -18,6 +18,7 @@ import (
 func init() {
 	register(&Scenario{
 		Prop:      "C25",
+		Preempt:   true,
 		Run:       runC25,
 		NeedsRace: true,
 		Real: []string{
